@@ -343,21 +343,36 @@ def wrapper_audit(repo, rep):
 
 
 def check_wrapper(repo, rep, mod, qual, fn, callee, tables):
+    """by symbolic evaluation (helpers introduced by a refactoring are inlined, keyword arguments put in place):
+    every value-returning path returns <callee>(epoch, <this module's tables in order>[, the wrapper's own flag])"""
+    from ..rules import outcomes
     site = "%s.%s" % (mod, qual)
-    rets = [n for n in ast.walk(fn) if isinstance(n, ast.Return) and n.value is not None]
-    calls = [r.value for r in rets if isinstance(r.value, ast.Call) and isinstance(r.value.func, ast.Name) and r.value.func.id == callee]
-    if len(calls) != len(rets) or not calls:
-        rep.violation("R-ARGS", site, "not-delegating", "does not simply return %s(...)" % callee)
+    nm = [a.arg for a in fn.args.args]
+    E = ("epoch", T.sym("E"))
+    outs = [o for o in outcomes(repo, mod, qual, arg_terms={nm[0]: E}) if o.kind == "ret"]
+    if not outs:
+        rep.violation("R-ARGS", site, "not-delegating", "no value-returning path")
         return 1
-    m = repo.mod(mod)
-    for c in calls:
-        got = [norm_text(a) for a in c.args[1:1 + len(tables)]]
-        own = all(isinstance(a, ast.Name) and a.id in m.globals for a in c.args[1:1 + len(tables)])
-        if got != tables or not own:
+    want = [T.sym("%s.%s" % (mod, t)) for t in tables]
+    for o in outs:
+        v = o.value
+        if not (v[0] == "call" and v[1] == "Coordinates." + callee):
+            if any(x[0] == "call" and x[1] == "Coordinates." + callee for x in T.walk(v)):
+                rep.inconcl("R-ARGS", site, "the result of %s(...) is post-processed: %s" % (callee, T.show(v)[:100]))
+            else:
+                rep.violation("R-ARGS", site, "not-delegating", "does not return %s(...): %s" % (callee, T.show(v)[:100]))
+            return 1
+        args = list(v[2:])
+        got = [a[1].split(".", 1)[1] if (a[0] == "sym" and a[1].startswith(mod + ".")) else T.show(a)[:30] for a in args[1:1 + len(tables)]]
+        if args[1:1 + len(tables)] != want:
             rep.violation("R-ARGS", site, "tables:" + ",".join(got), "passes %s to %s; expected this module's %s" % (got, callee, tables))
             return 1
-        if not (c.args and isinstance(c.args[0], ast.Name) and c.args[0].id == fn.args.args[0].arg):
+        if not args or args[0] != E:
             rep.violation("R-ARGS", site, "epoch-arg", "first argument of %s is not the epoch parameter" % callee)
+            return 1
+        extra = args[1 + len(tables):]
+        if any(not (a[0] == "sym" and a[1] in nm) and not (a[0] == "kw" and a[2][0] == "sym" and a[2][1] in nm) for a in extra):
+            rep.violation("R-ARGS", site, "extra-arg", "further arguments of %s are not the wrapper's own parameters: %s" % (callee, [T.show(a)[:30] for a in extra]))
             return 1
     rep.ok("R-ARGS", site, "%s(epoch, %s)" % (callee, ", ".join(tables)), sample=(mod == "Venus"))
     return 1
